@@ -25,7 +25,28 @@ int fn_by_name(const char *name) {
 }
 
 // ------------------------------------------------------------------ cookie streams
+struct CookieCall {
+    Task *t;
+    char *buf;
+    size_t n;
+    ssize_t result;
+};
+static ssize_t wr_cookie_body(void *c, const char *buf, size_t n);
+static ssize_t rd_cookie_body(void *c, char *buf, size_t n);
+static void wr_tramp(void *p) { CookieCall *c = (CookieCall *)p; c->result = wr_cookie_body(c->t, c->buf, c->n); }
+static void rd_tramp(void *p) { CookieCall *c = (CookieCall *)p; c->result = rd_cookie_body(c->t, c->buf, c->n); }
+// the cookie callbacks run on the task's alternate stack (sim.h: alt_call)
 static ssize_t wr_cookie(void *c, const char *buf, size_t n) {
+    CookieCall cc = {(Task *)c, (char *)buf, n, 0};
+    alt_call(wr_tramp, &cc);
+    return cc.result;
+}
+static ssize_t rd_cookie(void *c, char *buf, size_t n) {
+    CookieCall cc = {(Task *)c, buf, n, 0};
+    alt_call(rd_tramp, &cc);
+    return cc.result;
+}
+static ssize_t wr_cookie_body(void *c, const char *buf, size_t n) {
     Task *t = (Task *)c;
     if (!t->op) return (ssize_t)n;
     const Fault &f = t->op->f;
@@ -43,7 +64,7 @@ static ssize_t wr_cookie(void *c, const char *buf, size_t n) {
     t->wr_bytes += n;
     return (ssize_t)n;
 }
-static ssize_t rd_cookie(void *c, char *buf, size_t n) {
+static ssize_t rd_cookie_body(void *c, char *buf, size_t n) {
     Task *t = (Task *)c;
     if (!t->op) return 0;
     const Fault &f = t->op->f;
